@@ -142,7 +142,7 @@ class kFlowDecompCycles(walkmodel.AbstractWalkModelDiGraph):
 
 
         self.k = k
-        self.optimization_options = optimization_options or {}        
+        self.optimization_options = dict(optimization_options) if optimization_options else {}   # never write into the caller's dict        
 
         self.subset_constraints_coverage = subset_constraints_coverage
         
